@@ -89,16 +89,19 @@ Theorem suffix_confinement_partial : forall D (proc : mode -> cmd -> D -> pst ->
 Proof. exact @bib_loop_forgets. Qed.
 Print Assumptions suffix_confinement_partial.
 
-(* CONFINEMENT, character level, for well-formed prefixes: whatever text b follows a sequence
-   of well-formed entries (another entry, a malformed one, a truncated one, noise ...), the
-   low-level reader yields exactly those entries first -- a malformed entry never alters the
-   entries read before it.  PARTIAL: the prefix is a sequence of whitespace-separated
-   well-formed entries (no junk, @string, @preamble, @comment in the prefix); the suffix
-   direction (entries AFTER a balanced malformed entry) is not proved at character level. *)
-Theorem prefix_confinement_wellformed_partial : forall m es b d s, Forall (wf_sentry month_macros) es ->
-  lowlevel m (file_text es b) = Ret d s -> exists l, d = map (entry_cmd month_macros) es ++ l.
-Proof. exact prefix_confinement_lowlevel. Qed.
-Print Assumptions prefix_confinement_wellformed_partial.
+(* PREFIX CONFINEMENT, character level, purely syntactic hypotheses: whatever text y follows a
+   well-formed file (entries, @string, @preamble, @comment, junk without '@') that ends in at
+   least one junk character (a line end, say) -- another entry, a malformed one, a truncated
+   one, noise -- the entries, the preamble and the reported problems read from that file are
+   exactly what it denotes and remain a prefix of the result: a malformed entry never alters
+   the entries read before it. *)
+Theorem prefix_confinement : forall items tail v e y d2 s2,
+  wf_file month_macros items -> no_at tail -> tail <> [] -> denote_items2 month_macros items ([], []) = Some (v, e) ->
+  parse_bib Capture (file_text2 items tail ++ y) = Ret d2 s2 ->
+  (exists l, map entry_view (db_entries d2) = fst v ++ l) /\ (exists l, map snd (db_preamble d2) = snd v ++ l) /\
+  (exists l, p_errs s2 = map data_err e ++ l).
+Proof. exact prefix_confinement_lemma. Qed.
+Print Assumptions prefix_confinement.
 
 (* CONFINEMENT, character level, suffix direction, for well-formed suffixes: whatever was read
    before -- any text, malformed or not: any database d, any errors reported so far, any macro
@@ -150,6 +153,88 @@ Theorem suffix_confinement : forall p d s items tail v' e,
 Proof. exact suffix_confinement_lemma. Qed.
 Print Assumptions suffix_confinement.
 
+(* SUFFIX CONFINEMENT for four syntactic CLASSES of damaged commands (hypotheses are checkable
+   predicates on the text; no hypothesis about the run).  In both, the damaged command follows
+   a well-formed file and junk, is followed by arbitrary text r without '@', and then by any
+   well-formed items: those items are read exactly as they denote under the macro table in
+   force, and exactly one 'token required' problem is reported for the damaged command.
+   (1) DAMAGED HEAD: '@' ws X r with X neither whitespace, nor a name-start character, nor '@'
+       (entry type deleted or replaced by a number / delimiter / '=' / ',' / '#' / a double quote).
+   (2) DAMAGED CLOSE: a complete entry head and field list (any layout, optional trailing
+       comma) after which, where ',' or the closing delimiter is expected, comes a character
+       cx that is neither (closing delimiter deleted or replaced, ',' replaced, a stray
+       delimiter / '=' after a value ...; cx is not whitespace, '#', ',', a name character or
+       '@'); the damaged entry itself contributes what its complete fields denote.
+   (3) BROKEN FIELD: a complete entry head, zero or more complete fields each followed by ',',
+       then a field name NOT followed by '=' ('=' deleted or replaced, a stray token), or a field
+       name and '=' NOT followed by a value (value deleted, its opening delimiter replaced by
+       something that cannot start a value); the offending character is not whitespace, not a
+       name character and not '@'; the damaged entry contributes its complete fields.
+   (4) NO OPENER: '@' ws type ws X r with X neither whitespace nor '(' nor '{' nor '@', and
+       separated from the type by whitespace or not a name character (opening delimiter deleted
+       or replaced, type written twice, ...).
+   F25 ('@' followed by whitespace and the next '@') is outside all classes: X = '@'.
+   Still only oracle-checked: damage that leaves the scanner inside a string or a name / key
+   token (deleted or duplicated delimiters that stay balanced, a deleted ',' before a field
+   name, truncation inside a value), and any damage followed directly (no whitespace) by '@'. *)
+Theorem suffix_confinement_damaged_head : forall items junk ws X r v e items2 tail2 v2 e2,
+  wf_file month_macros items -> no_at junk -> no_at r -> forallb is_space ws = true ->
+  is_space X = false -> is_name_start X = false -> N.eqb X c_at = false ->
+  denote_items2 month_macros items ([], []) = Some (v, e) ->
+  wf_file (final_macros month_macros items) items2 -> no_at tail2 ->
+  denote_items2 (final_macros month_macros items) items2 v = Some (v2, e2) ->
+  exists d' s' te, parse_bib Capture (file_text2 items (junk ++ c_at :: ws ++ X :: r) ++ file_text2 items2 tail2) = Ret d' s'
+    /\ Proofs.BibFile.view d' = v2 /\ p_errs s' = map data_err e ++ [te] ++ map data_err e2 /\ e_cls te = E_TOKEN.
+Proof. exact suffix_confinement_damaged_head_lemma. Qed.
+Print Assumptions suffix_confinement_damaged_head.
+
+Theorem suffix_confinement_damaged_close :
+  forall items junk brace cx ws0 typ ws1 ws2 key wsk fs trailing wsend r v e v1 e1 items2 tail2 v2 e2,
+  wf_file month_macros items -> no_at junk -> no_at r -> N.eqb cx c_at = false ->
+  forallb is_space ws0 = true -> forallb is_space ws1 = true -> forallb is_space ws2 = true ->
+  forallb is_space wsk = true -> forallb is_space wsend = true ->
+  is_entry_type typ = true -> is_key brace key = true -> Forall (wf_sfield (final_macros month_macros items)) fs ->
+  closer_char cx -> cx <> cl_char brace ->
+  denote_items2 month_macros items ([], []) = Some (v, e) ->
+  denote_cmd2 (CEntry typ (Some key) (map (field_result (final_macros month_macros items)) fs)) v = Some (v1, e1) ->
+  wf_file (final_macros month_macros items) items2 -> no_at tail2 ->
+  denote_items2 (final_macros month_macros items) items2 v1 = Some (v2, e2) ->
+  exists d' s' te,
+    parse_bib Capture (file_text2 items (junk ++ c_at :: entry_text_x brace cx ws0 typ ws1 ws2 key wsk fs trailing wsend r)
+                       ++ file_text2 items2 tail2) = Ret d' s'
+    /\ Proofs.BibFile.view d' = v2 /\ p_errs s' = map data_err e ++ [te] ++ map data_err e1 ++ map data_err e2 /\ e_cls te = E_TOKEN.
+Proof. exact suffix_confinement_damaged_close_lemma. Qed.
+Print Assumptions suffix_confinement_damaged_close.
+
+Theorem suffix_confinement_no_opener : forall items junk ws0 typ ws1 X r v e items2 tail2 v2 e2,
+  wf_file month_macros items -> no_at junk -> no_at r -> N.eqb X c_at = false ->
+  forallb is_space ws0 = true -> forallb is_space ws1 = true -> is_name typ = true ->
+  is_space X = false -> X <> 40%N -> X <> c_lbrace -> (ws1 <> [] \/ is_name_char X = false) ->
+  denote_items2 month_macros items ([], []) = Some (v, e) ->
+  wf_file (final_macros month_macros items) items2 -> no_at tail2 ->
+  denote_items2 (final_macros month_macros items) items2 v = Some (v2, e2) ->
+  exists d' s' te, parse_bib Capture (file_text2 items (junk ++ c_at :: ws0 ++ typ ++ ws1 ++ X :: r) ++ file_text2 items2 tail2) = Ret d' s'
+    /\ Proofs.BibFile.view d' = v2 /\ p_errs s' = map data_err e ++ [te] ++ map data_err e2 /\ e_cls te = E_TOKEN.
+Proof. exact suffix_confinement_no_opener_lemma. Qed.
+Print Assumptions suffix_confinement_no_opener.
+
+Theorem suffix_confinement_broken_field :
+  forall items junk brace ws0 typ ws1 ws2 key wsk fs bk r v e v1 e1 items2 tail2 v2 e2,
+  wf_file month_macros items -> no_at junk -> no_at r -> N.eqb (broken_char bk) c_at = false ->
+  forallb is_space ws0 = true -> forallb is_space ws1 = true -> forallb is_space ws2 = true -> forallb is_space wsk = true ->
+  is_entry_type typ = true -> is_key brace key = true -> Forall (wf_sfield (final_macros month_macros items)) fs ->
+  wf_broken bk ->
+  denote_items2 month_macros items ([], []) = Some (v, e) ->
+  denote_cmd2 (CEntry typ (Some key) (map (field_result (final_macros month_macros items)) fs)) v = Some (v1, e1) ->
+  wf_file (final_macros month_macros items) items2 -> no_at tail2 ->
+  denote_items2 (final_macros month_macros items) items2 v1 = Some (v2, e2) ->
+  exists d' s' te,
+    parse_bib Capture (file_text2 items (junk ++ c_at :: ws0 ++ typ ++ ws1 ++ op_char brace :: ws2 ++ key ++ wsk ++ c_comma :: fields_pre fs (broken_text bk r))
+                       ++ file_text2 items2 tail2) = Ret d' s'
+    /\ Proofs.BibFile.view d' = v2 /\ p_errs s' = map data_err e ++ [te] ++ map data_err e1 ++ map data_err e2 /\ e_cls te = E_TOKEN.
+Proof. exact suffix_confinement_broken_field_lemma. Qed.
+Print Assumptions suffix_confinement_broken_field.
+
 (* ---- the same for the reader WITH OPTIONS (Model/BibParserOpt.v):
    Parser(wanted_entries=..., keyless_entries=..., macros=..., person_fields=...) -- for EVERY
    option set o: totality (no foreign exception -- e.g. no AttributeError from want_entry on a
@@ -193,6 +278,39 @@ Example ex_reads_with_errors :
 Proof. vm_compute. reflexivity. Qed.
 Example ex_strict_raises : parse_bib Strict ex_text = Fatal (FErr 5 1).
 Proof. vm_compute. reflexivity. Qed.
+(* the hypotheses of suffix_confinement_damaged_close are met by a non-trivial input:
+   '@book{k1, t = {One}}' NL '@misc{k2, note = (quoted n) )' + ' rest of the line' + NL '@book{k3, t = jan}' *)
+Definition ex_f1 : sfield := ([], s2l "t", s2l " ", [ (s2l " ", SDelim false (s2l "One"), []) ]).
+Definition ex_f2 : sfield := (s2l " ", s2l "note", s2l " ", [ (s2l " ", SDelim true (s2l "n"), s2l " ") ]).
+Definition ex_f3 : sfield := ([], s2l "t", s2l " ", [ (s2l " ", SMacro (s2l "jan"), []) ]).
+Definition ex_before : list (str * sitem) := [ ([], IEntry true [] (s2l "book") [] [] (s2l "k1") [] true [ex_f1] false []) ].
+Definition ex_after : list (str * sitem) := [ (s2l "
+", IEntry true [] (s2l "book") [] [] (s2l "k3") [] true [ex_f3] false []) ].
+Example ex_damaged_close :
+  file_text2 ex_before (s2l "
+" ++ c_at :: entry_text_x true 41%N [] (s2l "misc") [] [] (s2l "k2") [] [ex_f2] false [] (s2l " rest of the line"))
+    ++ file_text2 ex_after (s2l "
+")
+  = s2l "@book{k1,t = {One}}
+@misc{k2, note = ""n"" ) rest of the line
+@book{k3,t = jan}
+" /\ closer_char 41%N /\ 41%N <> cl_char true /\ wf_file month_macros ex_before /\ wf_file month_macros ex_after
+  /\ Forall (wf_sfield month_macros) [ex_f2].
+Proof.
+  split; [vm_compute; reflexivity|]. split; [repeat split; try reflexivity; discriminate|]. split; [discriminate|].
+  unfold ex_before, ex_after, no_at, sp. cbn [wf_file wf_item].
+  repeat split; try reflexivity; try discriminate; try (intros x Hx; cbn in Hx; repeat (destruct Hx as [<-|Hx]; [reflexivity|]); contradiction);
+    try (repeat constructor; try reflexivity; try discriminate; cbn; congruence); try (intros H; discriminate H); auto.
+Qed.
+
+Example ex_broken_field :
+  file_text2 ex_before (s2l "
+" ++ c_at :: s2l "misc" ++ op_char true :: s2l "k2" ++ c_comma :: fields_pre [ex_f2] (broken_text (BNoEq (s2l " ") (s2l "year") (s2l " ") 123%N) (s2l "1999}}")))
+  = s2l "@book{k1,t = {One}}
+@misc{k2, note = ""n"" , year {1999}}" /\ wf_broken (BNoEq (s2l " ") (s2l "year") (s2l " ") 123%N)
+  /\ wf_broken (BNoVal [] (s2l "year") (s2l " ") (s2l " ") 44%N).
+Proof. split; [vm_compute; reflexivity|]. split; repeat split; try reflexivity; discriminate. Qed.
+
 Definition ex_untouched (t : string) : bool :=
   match parse_bib Capture (s2l t) with Ret _ s => untouchedb s | _ => false end.
 (* single-token corruptions of '@book{k2, title = {The x}, year = 1999}' followed by a blank:
